@@ -855,11 +855,50 @@ func existAddWindowCase(c *h.Case) {
 	if n != 1 {
 		c.Violation("ledger-names", "proxy name %s is listed %d times in the server's name table after one grant and one refusal", name, n)
 	}
-	// the loser can take the name once the winner closed it
+	// a close request (or the end) of the REFUSED session affects nothing of the winner: the name stays taken
 	w := a
 	if okB {
 		w = b
 	}
+	if k%2 == 0 {
+		_ = loser.CloseProxy(name)
+		if _, err := loser.Ping(10 * time.Second); err != nil {
+			run.Inconclusive("close barrier missing")
+			return
+		}
+	} else {
+		rid := loser.RunID
+		loser.Close()
+		h.Eventually(10*time.Second, func() bool {
+			for _, ss := range srv.Snapshot().Sessions {
+				if ss.RunID == rid {
+					return false
+				}
+			}
+			return true
+		})
+		nl, err := mk("L2")
+		if err != nil || !nl.LoggedIn() {
+			run.Inconclusive("exist-add: login failed")
+			return
+		}
+		defer nl.Close()
+		loser = nl
+	}
+	third, err := mk("C")
+	if err != nil || !third.LoggedIn() {
+		run.Inconclusive("exist-add: login failed")
+		return
+	}
+	defer third.Close()
+	if r3, err := third.NewProxy(&msg.NewProxy{ProxyName: name, ProxyType: "tcp", RemotePort: lPort}, 10*time.Second); err == nil && r3.Error == "" {
+		c.Violation("refused-session-freed-the-winners-name", "proxy name %s is held by session %s (port %d, accepting=%v); after the close request / end of the session whose registration of that name had been REFUSED, a third session was granted the same name at %s", name, winner, wPort, listening(wPort), r3.RemoteAddr)
+		return
+	}
+	if id, err := h.AskIdent(fmt.Sprintf("127.0.0.1:%d", wPort), 8*time.Second); err != nil || id != winner+"|"+name {
+		c.Violation("name-owner-does-not-serve", "proxy name %s: after the refused session's close / end the owner %s at port %d answers %q (err %v)", name, winner, wPort, id, err)
+	}
+	// the loser can take the name once the winner closed it
 	_ = w.CloseProxy(name)
 	if _, err := w.Ping(10 * time.Second); err != nil {
 		run.Inconclusive("close barrier missing")
